@@ -22,6 +22,8 @@ func runC15(c *Check, tier string) {
 	ruleR01d(c, "R15e")
 	// minimal mode loads exactly the dependencies the resolver hands back
 	ruleResolverTotal(c, "R15f")
+	// both modes restore through the same handlers
+	useFamily(c, "R15g", famRestore, 20)
 }
 
 func modeAtom(c *Check, op string) func(a engine.Atom) bool {
